@@ -39,6 +39,7 @@ type FontCase struct {
 	CMap   string     `json:"cmap"`   // "": Opts.Cmap; 12single | 12two | 12astral1 | 12astral | 4single | 12bmp
 	Style  *StyleIn   `json:"style"`  // nil: as made (regular); else the style flags of the font value, set independently
 	Shift  [2]int     `json:"shift"`  // all outlines are translated by this vector (no composites then)
+	Frac   int        `json:"frac"`   // cff/cid: 1, 2 = every outline coordinate gets a fraction (eighths, both sides of one half)
 }
 
 // StyleIn are the style inputs of a font value, enumerated independently of each other.
@@ -100,6 +101,9 @@ func fontCases(n int) []*FontCase {
 		if i >= len(corpus) && rng.Intn(5) == 0 {
 			fc.FMu = fmClasses[rng.Intn(len(fmClasses))]
 			fc.Upm = 1000
+		}
+		if o.Kind != "ttf" && i%3 == 0 {
+			fc.Frac = 1 + (i/3)%2
 		}
 		fixed := []struct {
 			kind, wmode string
@@ -254,6 +258,25 @@ func (fc *FontCase) build() (f *sfnt.Font, wq []int, codes []int) {
 					}
 				}
 				o.Glyphs[i] = fonts.SimpleTT(cc, nil)
+			}
+		}
+	}
+
+	// fractional outline coordinates (CFF stores 16.16 numbers): eighths on both sides of one half, so
+	// that rounding to nearest, truncating and rounding outward all give different boxes
+	if o, ok := f.Outlines.(*cff.Outlines); ok && fc.Frac > 0 {
+		fr := []float64{0.25, 0.625, 0.5, 0.875, 0.125, 0.75, 0.375}
+		for gi, g := range o.Glyphs {
+			for ci, cmd := range g.Cmds {
+				if cmd.Op == cff.OpMoveTo || cmd.Op == cff.OpLineTo || cmd.Op == cff.OpCurveTo {
+					for k := range cmd.Args {
+						d := fr[(gi*3+ci*5+k+fc.Frac)%len(fr)]
+						if (gi+ci+k+fc.Frac)%2 == 0 {
+							d = -d
+						}
+						cmd.Args[k] += d
+					}
+				}
 			}
 		}
 	}
